@@ -349,6 +349,32 @@ def main(ctx, args):
     for n, tail in ((126, " x\ny"), (127, " x\ny"), (127, "\t\tx\n\ty\n z"), (130, "x\n y"), (100, " " * 40 + "x\n" + " " * 40 + "y")):
         corpus.append({"origin": "corpus/autoindent", "vi": True, "cps": [ord(c) for c in "i" + "\x14" * n + tail + "\x1b"], "size": (24, 80),
                        "file": None, "exinit": "", "k": -1})
+    # every command of the ex command table (read from the tree under test) x a pool of arguments x a pool of addresses, each as
+    # a stream of its own, once in the unnamed empty buffer right after start (no current file, no alternate buffer) and once in
+    # a named buffer with text after a visit to another file (so that % and # are set)
+    names = sorted(set(re.findall(r'\{"([^"]*)", "([^"]*)", ec_', open(os.path.join(REPO, "ex.c")).read())))
+    names = sorted({n for pair in names for n in pair if n})
+    argpool = ["", " #", " %", " x", " a", " !x", " 1", " +1", " a b", " \\", " /", " a#%", "!", " =x", " \"q"]
+    locpool = ["", "%", "1", "9", "0"] if not ctx.quick else ["", "%"]
+    for nm in names:
+        for arg in argpool:
+            for loc in locpool:
+                line = loc + nm + arg + "\n"
+                corpus.append({"origin": "corpus/excmd-args", "vi": False, "cps": [ord(c) for c in line + ".\n" + line], "size": (24, 80), "file": None, "exinit": "", "k": -1})
+                corpus.append({"origin": "corpus/excmd-args", "vi": False, "cps": [ord(c) for c in "e other\ne text\n" + line + ".\n" + line], "size": (24, 80),
+                               "file": "one\ntwo a b\nthree\n", "exinit": "", "k": -1})
+    # every two-key vi command: a prefix key (operators, g z ^W [ ] " ' ` m @ q Z r f F t T) followed by every byte 1..126 except ^Z,
+    # each as a stream of its own on a small text (thorough: also in the empty buffer, and with a count in front)
+    prefixes = ["g", "z", "\x17", "[", "]", "\"", "'", "`", "m", "@", "q", "Z", "r", "f", "F", "t", "T", "c", "d", "y", "<", ">", "!", "\x17g"]
+    vtext = "one (two) [three]\n\tfour\n\n{ five }\nsix é漢 שלום\n"
+    for pk in prefixes:
+        for b in range(1, 127):
+            if b == 26:
+                continue
+            keys = "2j" + pk + chr(b)
+            corpus.append({"origin": "corpus/vi-two-keys", "vi": True, "cps": [ord(c) for c in keys + "\x1b" + keys], "size": (24, 80), "file": vtext, "exinit": "", "k": -1})
+            if not ctx.quick:
+                corpus.append({"origin": "corpus/vi-two-keys", "vi": True, "cps": [ord(c) for c in pk + chr(b) + "\x1b3" + pk + "2" + chr(b)], "size": (8, 24), "file": None, "exinit": "", "k": -1})
     with ThreadPoolExecutor(NCPU) as ex:
         results = list(ex.map(lambda s: run_stream(ctx, s, safebin), streams + corpus))
     st = dict(streams=len(streams), ex_streams=sum(1 for s in streams if not s["vi"]), vi_streams=sum(1 for s in streams if s["vi"]),
